@@ -130,7 +130,7 @@ def wfTrans (ids : List Str) (t : TransT) : Bool :=
   okList t.events && t.targets.all ids.contains && wfB t.content
 
 def wfInvoke (i : InvokeT) : Bool :=
-  i.src.isNone && okList i.namelist && i.params.all wfParam &&
+  okList i.namelist && i.params.all wfParam &&
   (match i.content with
    | some c => wfContentT c
    | none => true) &&
